@@ -21,6 +21,19 @@ def build(jobs: int = 16, timeout: int = 1500) -> tuple[bool, str]:
     """Incremental full .vo build (no -vos), serialised between concurrently running checks."""
     with open(LOCK, "w") as lk:
         fcntl.flock(lk, fcntl.LOCK_EX)
+        # the translated part of the model is regenerated from /repo's current source on every run
+        try:
+            from . import translate
+            from .common import REPO
+            text = translate.translate(str(REPO))
+        except Exception as ex:  # noqa: BLE001
+            return False, f"translator (harness/translate.py) cannot translate the current source: {type(ex).__name__}: {ex}"
+        gen = COQ / "GenSched.v"
+        if not gen.exists() or gen.read_text() != text:
+            gen.write_text(text)
+        mk = COQ / "Makefile"
+        if mk.exists() and mk.stat().st_mtime < (COQ / "_CoqProject").stat().st_mtime:
+            mk.unlink()
         if not (COQ / "Makefile").exists():
             rc, out = _run(["coq_makefile", "-f", "_CoqProject", "-o", "Makefile"], COQ, 120)
             if rc != 0:
